@@ -31,7 +31,7 @@ func newGen(p *Prog, fn *ssa.Function, con *Contract) *Gen {
 	g := &Gen{p: p, fn: fn, con: con, env: map[ssa.Value]*SV{}, layouts: map[string][]Comp{}, famSort: map[string]string{},
 		declFam: map[string]bool{}, typeTag: map[string]int{}, counts: map[string]int{}, specDecl: map[string]bool{},
 		strConsts: map[string]Val{}, closures: map[*ssa.MakeClosure]*ssa.MakeClosure{}, rangeIters: map[*ssa.Range]Val{},
-		pendingHavoc: map[string]bool{}, famLeaf: map[string]IntInfo{}}
+		pendingHavoc: map[string]bool{}, famLeaf: map[string]IntInfo{}, famDeclLine: map[string]int{}}
 	if con != nil {
 		g.mode = parseMode(con.Arith)
 	}
@@ -413,7 +413,9 @@ func writeReplay(p *Prog, path, prop string, o *Obl, fr *FuncResult) bool {
 	confirmed := false
 	if fr != nil && fr.Gen != nil && o.Expect != "sat" {
 		dir, _ := os.MkdirTemp("", "govcreplay")
-		defer os.RemoveAll(dir)
+		if os.Getenv("GOVC_KEEP") == "" {
+			defer os.RemoveAll(dir)
+		}
 		out := replayObligation(p, fr, o, dir)
 		confirmed = out.Confirmed
 		doc["confirmed_on_real_code"] = out.Confirmed
